@@ -309,6 +309,9 @@ func (f *fileBackedFile) VirtualAllocate(ctx context.Context, off, size uint64) 
 	f.lockMutatingData()
 	defer f.lock.Unlock()
 
+	if f.referenceCount == 0 {
+		return StatusErrStale
+	}
 	if end := uint64(off) + uint64(size); f.size < end {
 		if s := f.virtualTruncate(end); s != StatusOK {
 			return s
@@ -497,6 +500,9 @@ func (f *fileBackedFile) VirtualSetAttributes(ctx context.Context, in *Attribute
 	defer f.lock.Unlock()
 
 	if hasSizeBytes {
+		if f.referenceCount == 0 {
+			return StatusErrStale
+		}
 		if s := f.virtualTruncate(sizeBytes); s != StatusOK {
 			return s
 		}
@@ -515,6 +521,9 @@ func (f *fileBackedFile) VirtualWrite(ctx context.Context, buf []byte, offset ui
 	f.lockMutatingData()
 	defer f.lock.Unlock()
 
+	if f.referenceCount == 0 {
+		return 0, StatusErrStale
+	}
 	nWritten, err := f.file.WriteAt(buf, int64(offset))
 	if nWritten > 0 {
 		f.cachedDigest = digest.BadDigest
